@@ -29,9 +29,11 @@ func pathD(v ssa.Value, d int) string {
 	}
 	switch v := v.(type) {
 	case *ssa.Parameter:
-		return "$" + v.Name()
+		// roots are source variable names: a parameter, the cell it is
+		// captured in and the free variable of a closure all render alike
+		return v.Name()
 	case *ssa.FreeVar:
-		return "^" + v.Name()
+		return v.Name()
 	case *ssa.Const:
 		if v.Value == nil {
 			return "nil"
@@ -42,8 +44,8 @@ func pathD(v ssa.Value, d int) string {
 	case *ssa.Function:
 		return v.Name()
 	case *ssa.Alloc:
-		if v.Comment != "" {
-			return "@" + v.Comment
+		if v.Comment != "" && v.Comment != "complit" && v.Comment != "new" && v.Comment != "varargs" && v.Comment != "makeslice" {
+			return v.Comment
 		}
 		return "@" + v.Name()
 	case *ssa.FieldAddr:
@@ -528,8 +530,66 @@ func mustPass(from ssa.Instruction, target instrPred) (bool, ssa.Instruction) {
 	return mustPassFrom(b, idx+1, target)
 }
 
-// mustPassFrom starts at b.Instrs[start].
+// mustPassFrom starts at b.Instrs[start]. Branches whose condition is an SSA
+// value already decided by a branch edge dominating the start are followed
+// only along the consistent edge. A fact is dropped as soon as the traversal
+// re-enters the block defining its condition (the value is then recomputed,
+// e.g. in the next loop iteration), which keeps the pruning sound.
 func mustPassFrom(b *ssa.BasicBlock, start int, target instrPred) (bool, ssa.Instruction) {
+	type fact struct {
+		cond  ssa.Value
+		truth bool
+		def   *ssa.BasicBlock
+	}
+	var facts []fact
+	for _, f := range factsAt(b) {
+		c, t := f.Cond, f.True
+		for {
+			if u, ok := c.(*ssa.UnOp); ok && u.Op == token.NOT {
+				c, t = u.X, !t
+				continue
+			}
+			break
+		}
+		var def *ssa.BasicBlock
+		if in, ok := c.(ssa.Instruction); ok {
+			def = in.Block()
+		}
+		if len(facts) < 30 {
+			facts = append(facts, fact{c, t, def})
+		}
+	}
+	succs := func(blk *ssa.BasicBlock, mask uint32) []*ssa.BasicBlock {
+		if len(blk.Instrs) > 0 {
+			if iff, ok := blk.Instrs[len(blk.Instrs)-1].(*ssa.If); ok {
+				c, flip := iff.Cond, false
+				for {
+					if u, ok := c.(*ssa.UnOp); ok && u.Op == token.NOT {
+						c, flip = u.X, !flip
+						continue
+					}
+					break
+				}
+				for i, f := range facts {
+					if mask&(1<<uint(i)) != 0 && f.cond == c {
+						if f.truth != flip {
+							return blk.Succs[:1]
+						}
+						return blk.Succs[1:2]
+					}
+				}
+			}
+		}
+		return blk.Succs
+	}
+	enter := func(blk *ssa.BasicBlock, mask uint32) uint32 {
+		for i, f := range facts {
+			if f.def == blk {
+				mask &^= 1 << uint(i)
+			}
+		}
+		return mask
+	}
 	// scan remainder of start block
 	for _, in := range b.Instrs[start:] {
 		if target(in) {
@@ -539,14 +599,19 @@ func mustPassFrom(b *ssa.BasicBlock, start int, target instrPred) (bool, ssa.Ins
 			return false, in
 		}
 	}
-	seen := map[*ssa.BasicBlock]bool{}
+	type st struct {
+		b *ssa.BasicBlock
+		m uint32
+	}
+	seen := map[st]bool{}
 	var bad ssa.Instruction
-	var visit func(blk *ssa.BasicBlock) bool
-	visit = func(blk *ssa.BasicBlock) bool {
-		if seen[blk] {
+	var visit func(blk *ssa.BasicBlock, mask uint32) bool
+	visit = func(blk *ssa.BasicBlock, mask uint32) bool {
+		mask = enter(blk, mask)
+		if seen[st{blk, mask}] {
 			return true
 		}
-		seen[blk] = true
+		seen[st{blk, mask}] = true
 		for _, in := range blk.Instrs {
 			if target(in) {
 				return true
@@ -556,15 +621,16 @@ func mustPassFrom(b *ssa.BasicBlock, start int, target instrPred) (bool, ssa.Ins
 				return false
 			}
 		}
-		for _, s := range blk.Succs {
-			if !visit(s) {
+		for _, s := range succs(blk, mask) {
+			if !visit(s, mask) {
 				return false
 			}
 		}
 		return true
 	}
-	for _, s := range b.Succs {
-		if !visit(s) {
+	full := uint32(1)<<uint(len(facts)) - 1
+	for _, s := range succs(b, full) {
+		if !visit(s, full) {
 			return false, bad
 		}
 	}
@@ -579,8 +645,12 @@ func entryMustPass(fn *ssa.Function, target instrPred) (bool, ssa.Instruction) {
 	return mustPassFrom(fn.Blocks[0], 0, target)
 }
 
-// precedes: within one function, on every path from entry that reaches y an
-// instruction satisfying x has been executed before (A-ORDER).
+// precededBy: within one function, on every path from entry that reaches y an
+// instruction satisfying x has been executed before (A-ORDER). If the plain
+// graph argument fails, a branch fact (c, truth) holding at y is used: every
+// execution reaching y has a last evaluation of c; from there to y the
+// branches on c agree with the fact, so it suffices that x lies on every such
+// consistent segment.
 func precededBy(y ssa.Instruction, x instrPred) bool {
 	b := y.Block()
 	for _, in := range b.Instrs {
@@ -591,12 +661,54 @@ func precededBy(y ssa.Instruction, x instrPred) bool {
 			return true
 		}
 	}
-	// remove blocks containing x; y's block must become unreachable from entry
 	fn := b.Parent()
 	has := func(blk *ssa.BasicBlock) bool {
 		for _, in := range blk.Instrs {
 			if x(in) {
 				return true
+			}
+		}
+		return false
+	}
+	// search: can target block b be reached from `from` (exclusive of from's own
+	// instructions) without passing a block containing x, never entering
+	// `avoid`, and following only consistent edges of branches on cond?
+	search := func(from *ssa.BasicBlock, avoid *ssa.BasicBlock, cond ssa.Value, truth bool) bool {
+		succs := func(blk *ssa.BasicBlock) []*ssa.BasicBlock {
+			if cond != nil && len(blk.Instrs) > 0 {
+				if iff, ok := blk.Instrs[len(blk.Instrs)-1].(*ssa.If); ok {
+					c, flip := iff.Cond, false
+					for {
+						if u, ok := c.(*ssa.UnOp); ok && u.Op == token.NOT {
+							c, flip = u.X, !flip
+							continue
+						}
+						break
+					}
+					if c == cond {
+						if truth != flip {
+							return blk.Succs[:1]
+						}
+						return blk.Succs[1:2]
+					}
+				}
+			}
+			return blk.Succs
+		}
+		seen := map[*ssa.BasicBlock]bool{from: true}
+		work := []*ssa.BasicBlock{from}
+		for len(work) > 0 {
+			blk := work[len(work)-1]
+			work = work[:len(work)-1]
+			for _, s := range succs(blk) {
+				if s == b {
+					return true
+				}
+				if seen[s] || s == avoid || has(s) {
+					continue
+				}
+				seen[s] = true
+				work = append(work, s)
 			}
 		}
 		return false
@@ -608,23 +720,34 @@ func precededBy(y ssa.Instruction, x instrPred) bool {
 	if has(entry) {
 		return true
 	}
-	seen := map[*ssa.BasicBlock]bool{entry: true}
-	work := []*ssa.BasicBlock{entry}
-	for len(work) > 0 {
-		blk := work[len(work)-1]
-		work = work[:len(work)-1]
-		for _, s := range blk.Succs {
-			if s == b {
-				return false
-			}
-			if seen[s] || has(s) {
+	if !search(entry, nil, nil, false) {
+		return true
+	}
+	for _, f := range factsAt(b) {
+		c, t := f.Cond, f.True
+		for {
+			if u, ok := c.(*ssa.UnOp); ok && u.Op == token.NOT {
+				c, t = u.X, !t
 				continue
 			}
-			seen[s] = true
-			work = append(work, s)
+			break
+		}
+		in, ok := c.(ssa.Instruction)
+		if !ok {
+			continue
+		}
+		d := in.Block()
+		if d == b {
+			continue
+		}
+		if has(d) {
+			return true
+		}
+		if !search(d, d, c, t) {
+			return true
 		}
 	}
-	return true
+	return false
 }
 
 // ---------- A-WHO: stores to fields ----------
@@ -679,4 +802,214 @@ func methodCallsOnField(fns []*ssa.Function, f *types.Var, name string) []ssa.In
 		})
 	}
 	return out
+}
+
+// ---------- returned values (handles defer-spilled named results) ----------
+
+// retVals returns the values that may be returned as result #idx by ret. If
+// the function has named results spilled to allocs (because of a defer), the
+// reaching stores to that alloc are followed backwards.
+func retVals(ret *ssa.Return, idx int) []ssa.Value {
+	if idx >= len(ret.Results) {
+		return nil
+	}
+	v := ret.Results[idx]
+	if u, ok := v.(*ssa.UnOp); ok && u.Op == token.MUL {
+		if a, ok := u.X.(*ssa.Alloc); ok {
+			return reachingStores(a, ret)
+		}
+	}
+	if phi, ok := v.(*ssa.Phi); ok {
+		var out []ssa.Value
+		seen := map[*ssa.Phi]bool{}
+		var walk func(p *ssa.Phi)
+		walk = func(p *ssa.Phi) {
+			if seen[p] {
+				return
+			}
+			seen[p] = true
+			for _, e := range p.Edges {
+				if q, ok := e.(*ssa.Phi); ok {
+					walk(q)
+				} else {
+					out = append(out, e)
+				}
+			}
+		}
+		walk(phi)
+		return out
+	}
+	return []ssa.Value{v}
+}
+
+// reachingStores: values stored to alloc a that may reach instruction at.
+// A path with no store yields the zero value, represented by nil.
+func reachingStores(a *ssa.Alloc, at ssa.Instruction) []ssa.Value {
+	var out []ssa.Value
+	type key struct {
+		b *ssa.BasicBlock
+	}
+	seen := map[*ssa.BasicBlock]bool{}
+	var scan func(b *ssa.BasicBlock, from int)
+	scan = func(b *ssa.BasicBlock, from int) {
+		for i := from; i >= 0; i-- {
+			if st, ok := b.Instrs[i].(*ssa.Store); ok && st.Addr == ssa.Value(a) {
+				out = append(out, st.Val)
+				return
+			}
+			if b.Instrs[i] == ssa.Instruction(a) {
+				out = append(out, nil)
+				return
+			}
+		}
+		if len(b.Preds) == 0 {
+			out = append(out, nil)
+			return
+		}
+		for _, p := range b.Preds {
+			if seen[p] {
+				continue
+			}
+			seen[p] = true
+			scan(p, len(p.Instrs)-1)
+		}
+	}
+	b := at.Block()
+	idx := len(b.Instrs) - 1
+	for i, in := range b.Instrs {
+		if in == at {
+			idx = i - 1
+		}
+	}
+	scan(b, idx)
+	return out
+}
+
+// returnsOf lists the Return instructions of fn.
+func returnsOf(fn *ssa.Function) []*ssa.Return {
+	var out []*ssa.Return
+	eachInstr(fn, func(in ssa.Instruction) {
+		if r, ok := in.(*ssa.Return); ok && in.Block() != fn.Recover {
+			out = append(out, r)
+		}
+	})
+	return out
+}
+
+// canon strips conversions and resolves a load of a local variable cell to
+// the unique value stored into it on all paths reaching the load (go/ssa
+// keeps address-taken locals in memory).
+func canon(v ssa.Value) ssa.Value {
+	for i := 0; i < 8; i++ {
+		v = strip(v)
+		u, ok := v.(*ssa.UnOp)
+		if !ok || u.Op != token.MUL {
+			return v
+		}
+		a, ok := u.X.(*ssa.Alloc)
+		if !ok {
+			return v
+		}
+		vals := reachingStores(a, u)
+		if len(vals) != 1 || vals[0] == nil {
+			return v
+		}
+		v = vals[0]
+	}
+	return v
+}
+
+// isNilValue: constant nil (or the zero value of a spilled result = nil entry).
+func isNilValue(v ssa.Value) bool {
+	if v == nil {
+		return true
+	}
+	return isNilConst(v)
+}
+
+// ---------- atom matchers ----------
+
+// nilTestOn: atom compares a value satisfying sel with nil; returns (matched, isNil).
+func nilTestOn(a Atom, sel func(ssa.Value) bool) (bool, bool) {
+	if a.Op != token.EQL && a.Op != token.NEQ {
+		return false, false
+	}
+	x, y := a.X, a.Y
+	if isNilConst(x) {
+		x, y = y, x
+	}
+	if !isNilConst(y) || !(sel(x) || sel(canon(x))) {
+		return false, false
+	}
+	return true, a.Op == token.EQL
+}
+
+// boolTestOn: atom is the truth of a boolean value satisfying sel; returns (matched, value).
+func boolTestOn(a Atom, sel func(ssa.Value) bool) (bool, bool) {
+	if a.Op == token.ILLEGAL {
+		if sel(a.X) || sel(canon(a.X)) {
+			return true, !a.Neg
+		}
+		return false, false
+	}
+	if a.Op == token.EQL || a.Op == token.NEQ {
+		x, y := a.X, a.Y
+		if _, ok := constBool(x); ok {
+			x, y = y, x
+		}
+		if c, ok := constBool(y); ok && (sel(x) || sel(canon(x))) {
+			return true, (a.Op == token.EQL) == c
+		}
+	}
+	return false, false
+}
+
+// commaOkOfLookupOn: v is the ok of `_, ok := m[k]` where m is loaded from field f.
+func commaOkOfLookupOn(v ssa.Value, f *types.Var) bool {
+	ex, ok := v.(*ssa.Extract)
+	if !ok || ex.Index != 1 {
+		return false
+	}
+	lk, ok := ex.Tuple.(*ssa.Lookup)
+	if !ok || !lk.CommaOk {
+		return false
+	}
+	return loadedField(lk.X) == f
+}
+
+// isLoadOfField: v is a load of field f (any base).
+func isLoadOfField(f *types.Var) func(ssa.Value) bool {
+	return func(v ssa.Value) bool { return f != nil && loadedField(v) == f }
+}
+
+// isCallResult: v is (an extract of) a call satisfying pr.
+func isCallResult(pr func(*ssa.CallCommon) bool) func(ssa.Value) bool {
+	return func(v ssa.Value) bool {
+		v = strip(v)
+		if ex, ok := v.(*ssa.Extract); ok {
+			v = ex.Tuple
+		}
+		c, ok := v.(*ssa.Call)
+		return ok && pr(&c.Call)
+	}
+}
+
+// builtinCallsOn lists calls of builtin `name` whose first argument is loaded from field f.
+func builtinCallsOn(fn *ssa.Function, name string, f *types.Var) []ssa.Instruction {
+	var out []ssa.Instruction
+	eachInstr(fn, func(in ssa.Instruction) {
+		c := callCommon(in)
+		if c == nil {
+			return
+		}
+		if b, ok := c.Value.(*ssa.Builtin); ok && b.Name() == name && len(c.Args) > 0 && loadedField(c.Args[0]) == f {
+			out = append(out, in)
+		}
+	})
+	return out
+}
+
+// blockHasAtom: some fact at in's block satisfies pred.
+func guardedBy(in ssa.Instruction, pred func(Atom) bool) bool {
+	return hasAtom(atomsAt(in.Block()), pred)
 }
